@@ -527,30 +527,41 @@ theorem addSimplex_inv {s : HG} (h : SCInv s) (ms : List PyId) (idx : Option PyI
   unfold addSimplex
   split
   · exact h
-  · rename_i hne
-    split
-    · exact h
-    · rename_i hnone
+  · rename_i hhas
+    have hhas' : ¬ Has s ms := fun hx => hhas ((hasSimplex_iff s ms).2 hx)
+    have auto : ¬ ms.isEmpty = true → PyId.none ∉ ms →
+        SCInv (addFaces (addTop { s with uid := s.uid + 1 } (PyId.int s.uid) ms a hh) (subfacesRaw (dedup ms)) hh) := by
+      intro hne hnone
+      have hne' : ms ≠ [] := by intro hx; apply hne; simp [hx]
+      have hnd : PyId.none ∉ dedup ms := fun hx => hnone (mem_dedup.1 hx)
+      have hm := mid_addTop (mid_uid_succ (mid_of_scinv h)) (PyId.int s.uid) ms a hh (uid_not_mem h.fresh)
+        (by intro hx; cases hx) hnone hne' hhas' (faceClosed_subfacesRaw (dedup ms)) (cover_dedup ms)
+        (none_subfacesRaw hnd)
+      rw [List.nil_append] at hm
+      exact addFaces_scinv hh hm
+    have auto' : SCInv (if ms.isEmpty = true then (s, Outcome.ok) else
+        if PyId.none ∈ ms then (s, Outcome.err ErrKind.lib) else
+        (addFaces (addTop { s with uid := s.uid + 1 } (PyId.int s.uid) ms a hh) (subfacesRaw (dedup ms)) hh, Outcome.ok)).1 := by
       split
       · exact h
-      · rename_i hhas
-        have hne' : ms ≠ [] := by intro hx; apply hne; simp [hx]
-        have hhas' : ¬ Has s ms := fun hx => hhas ((hasSimplex_iff s ms).2 hx)
-        have hnd : PyId.none ∉ dedup ms := fun hx => hnone (mem_dedup.1 hx)
-        have auto : SCInv (addFaces (addTop { s with uid := s.uid + 1 } (PyId.int s.uid) ms a hh)
-            (subfacesRaw (dedup ms)) hh) := by
-          have hm := mid_addTop (mid_uid_succ (mid_of_scinv h)) (PyId.int s.uid) ms a hh (uid_not_mem h.fresh)
-            (by intro hx; cases hx) hnone hne' hhas' (faceClosed_subfacesRaw (dedup ms)) (cover_dedup ms)
-            (none_subfacesRaw hnd)
-          rw [List.nil_append] at hm
-          exact addFaces_scinv hh hm
+      · split
+        · exact h
+        · exact auto (by assumption) (by assumption)
+    split
+    · exact auto'
+    · exact auto'
+    · rename_i i hin
+      split
+      · exact h
+      · rename_i hi
         split
-        · exact auto
-        · exact auto
-        · rename_i i hin
+        · exact h
+        · rename_i hne
           split
           · exact h
-          · rename_i hi
+          · rename_i hnone
+            have hne' : ms ≠ [] := by intro hx; apply hne; simp [hx]
+            have hnd : PyId.none ∉ dedup ms := fun hx => hnone (mem_dedup.1 hx)
             have hm := mid_addTop (mid_of_scinv h) i ms a hh hi hin hnone hne' hhas'
               (faceClosed_subfacesRaw (dedup ms)) (cover_dedup ms) (none_subfacesRaw hnd)
             rw [List.nil_append] at hm
@@ -850,35 +861,44 @@ theorem addSimplex_has {s : HG} (h : SCInv s) (ms : List PyId) (idx : Option PyI
   revert hok
   unfold addSimplex
   split
-  · rename_i he; exact absurd (by simpa using he) hne
-  · split
-    · intro hx; cases hx
-    · rename_i hnone
+  · rename_i hhas; intro _; exact (hasSimplex_iff s ms).1 hhas
+  · rename_i hhas
+    have hhas' : ¬ Has s ms := fun hx => hhas ((hasSimplex_iff s ms).2 hx)
+    have hemp : ¬ ms.isEmpty = true := by intro he; exact hne (by simpa using he)
+    have auto' : (if ms.isEmpty = true then (s, Outcome.ok) else
+        if PyId.none ∈ ms then (s, Outcome.err ErrKind.lib) else
+        (addFaces (addTop { s with uid := s.uid + 1 } (PyId.int s.uid) ms a hh) (subfacesRaw (dedup ms)) hh, Outcome.ok)).2 = .ok →
+        Has (if ms.isEmpty = true then (s, Outcome.ok) else
+        if PyId.none ∈ ms then (s, Outcome.err ErrKind.lib) else
+        (addFaces (addTop { s with uid := s.uid + 1 } (PyId.int s.uid) ms a hh) (subfacesRaw (dedup ms)) hh, Outcome.ok)).1 ms := by
+      rw [if_neg hemp]
       split
-      · rename_i hhas; intro _; exact (hasSimplex_iff s ms).1 hhas
-      · rename_i hhas
-        have hhas' : ¬ Has s ms := fun hx => hhas ((hasSimplex_iff s ms).2 hx)
+      · intro hx; cases hx
+      · rename_i hnone
+        intro _
         have hnd : PyId.none ∉ dedup ms := fun hx => hnone (mem_dedup.1 hx)
-        have auto : Has (addFaces (addTop { s with uid := s.uid + 1 } (PyId.int s.uid) ms a hh)
-            (subfacesRaw (dedup ms)) hh) ms := by
-          have hm := mid_addTop (mid_uid_succ (mid_of_scinv h)) (PyId.int s.uid) ms a hh (uid_not_mem h.fresh)
-            (by intro hx; cases hx) hnone hne hhas' (faceClosed_subfacesRaw (dedup ms)) (cover_dedup ms)
-            (none_subfacesRaw hnd)
+        have hm := mid_addTop (mid_uid_succ (mid_of_scinv h)) (PyId.int s.uid) ms a hh (uid_not_mem h.fresh)
+          (by intro hx; cases hx) hnone hne hhas' (faceClosed_subfacesRaw (dedup ms)) (cover_dedup ms)
+          (none_subfacesRaw hnd)
+        rw [List.nil_append] at hm
+        exact addFaces_has hh hm (addTop_ext { s with uid := s.uid + 1 } (PyId.int s.uid) ms a hh
+          (show PyId.int (s.uid : Int) ∉ s.edges from uid_not_mem h.fresh)).has_new
+    split
+    · exact auto'
+    · exact auto'
+    · rename_i i hin
+      by_cases hi : i ∈ s.edges
+      · rw [if_pos hi]; intro hx; cases hx
+      · rw [if_neg hi, if_neg hemp]
+        by_cases hnone : PyId.none ∈ ms
+        · rw [if_pos hnone]; intro hx; cases hx
+        · rw [if_neg hnone]
+          intro _
+          have hnd : PyId.none ∉ dedup ms := fun hx => hnone (mem_dedup.1 hx)
+          have hm := mid_addTop (mid_of_scinv h) i ms a hh hi hin hnone hne hhas'
+            (faceClosed_subfacesRaw (dedup ms)) (cover_dedup ms) (none_subfacesRaw hnd)
           rw [List.nil_append] at hm
-          exact addFaces_has hh hm (addTop_ext { s with uid := s.uid + 1 } (PyId.int s.uid) ms a hh
-            (show PyId.int (s.uid : Int) ∉ s.edges from uid_not_mem h.fresh)).has_new
-        split
-        · intro _; exact auto
-        · intro _; exact auto
-        · rename_i i hin
-          split
-          · intro hx; cases hx
-          · rename_i hi
-            intro _
-            have hm := mid_addTop (mid_of_scinv h) i ms a hh hi hin hnone hne hhas'
-              (faceClosed_subfacesRaw (dedup ms)) (cover_dedup ms) (none_subfacesRaw hnd)
-            rw [List.nil_append] at hm
-            exact addFaces_has hh hm (addTop_ext s i ms a hh hi).has_new
+          exact addFaces_has hh hm (addTop_ext s i ms a hh hi).has_new
 
 /-! ### removals: sub-complexes whose removed part is closed upwards -/
 
@@ -1090,9 +1110,7 @@ theorem close_inv {s : HG} (h : SCInv s) (orders : List (List PyId)) (hh : Hints
 
 theorem lccInPlace_inv {s : HG} (h : SCInv s) : SCInv (SC.lccInPlace s).1 := by
   unfold SC.lccInPlace
-  split
-  · exact h
-  · exact guardF_inv SCInv _ _ h (removeNodesFrom_inv h _)
+  exact guardF_inv SCInv _ _ h (removeNodesFrom_inv h _)
 
 theorem relabel_inv {s : HG} (h : SCInv s) (l : String) (hh : Hints) : SCInv (SC.relabel s l hh).1 := by
   unfold SC.relabel
